@@ -44,18 +44,25 @@ DevDgrams(n) == {d \in AllDgrams : Deviations(d) + (IF d.src = "dest" THEN 0 ELS
         "recv"     receive_udp: verifies only if a query was given AND ignore_errors (as
                    documented for its *query* parameter); destination None = any source
         "fallback" udp_with_fallback: udp with raise_on_truncation forced on
-   deadline: 0 = none, else an odd number of ticks *)
+   deadline: 0 = none, else an odd number of ticks
+   tz: how a ZERO timeout is spelled when deadline = 0: "-" = no timeout at all (None);
+       "int0" = timeout 0, "float0" = timeout 0.0, "tiny" = a positive timeout far below one
+       tick.  All three are a deadline AT tick 0: what is already there may be taken, the first
+       wait expires. *)
 ConfigType == [api : {"udp", "recv", "fallback"}, iu : BOOLEAN, ie : BOOLEAN, rot : BOOLEAN,
                it : BOOLEAN, mcast : BOOLEAN, hasq : BOOLEAN, anysrc : BOOLEAN,
-               fam : {"v4", "v6"}, deadline : Nat]
+               fam : {"v4", "v6"}, deadline : Nat, tz : {"-", "int0", "float0", "tiny"}]
 
 \* one configuration per distinguishable call
 CanonConfig(c) == /\ (c.api # "recv" => c.hasq /\ ~c.anysrc)
                   /\ (c.api = "fallback" => c.rot)
                   /\ (c.anysrc => ~c.mcast /\ ~c.iu)
+                  /\ (c.tz # "-" => c.deadline = 0)
 ConfigsOver(apis, deadlines, mcasts, fams) ==
     {c \in [api : apis, iu : BOOLEAN, ie : BOOLEAN, rot : BOOLEAN, it : BOOLEAN, mcast : mcasts,
-            hasq : BOOLEAN, anysrc : BOOLEAN, fam : fams, deadline : deadlines] : CanonConfig(c)}
+            hasq : BOOLEAN, anysrc : BOOLEAN, fam : fams, deadline : deadlines, tz : {"-"}] : CanonConfig(c)}
+\* the zero-timeout spellings of the configurations of S that have no deadline
+ZeroTimeouts(S) == {[c EXCEPT !.tz = z] : c \in {x \in S : x.deadline = 0}, z \in {"int0", "float0", "tiny"}}
 
 -----------------------------------------------------------------------------
 (* The property's vocabulary *)
@@ -108,7 +115,8 @@ AllowedExc(d, c) == IF MustBeTruncated(d, c) THEN {"Truncated"}
                     ELSE {"other"}
 
 -----------------------------------------------------------------------------
-Expiring(dt) == cfg.deadline # 0 /\ now + dt > cfg.deadline
+HasDeadline == cfg.deadline # 0 \/ cfg.tz # "-"
+Expiring(dt) == HasDeadline /\ now + dt > cfg.deadline
 
 Init == /\ cfg \in Configs
         /\ now = 0 /\ nblocks = 0 /\ consumed = 0 /\ last = <<>>
@@ -124,7 +132,7 @@ Block == /\ status = "open" /\ nblocks < MaxBlocks
 
 \* nothing (more) ever arrives
 Silence == /\ status = "open"
-           /\ IF cfg.deadline = 0
+           /\ IF ~HasDeadline
                 THEN status' = "hang" /\ now' = now
                 ELSE status' = "timeout" /\ now' = cfg.deadline
            /\ UNCHANGED <<cfg, nblocks, consumed, last, exc>>
@@ -191,9 +199,9 @@ EndIsFinal == [][ status # "open" => UNCHANGED vars ]_vars
 
 \* the deadline: a timeout is reported exactly at the deadline, nothing is taken after it
 DeadlineRespected ==
-    /\ (cfg.deadline # 0 => now <= cfg.deadline)
-    /\ (status = "timeout" => cfg.deadline # 0 /\ now = cfg.deadline)
-    /\ (status = "hang" => cfg.deadline = 0)
+    /\ (HasDeadline => now <= cfg.deadline)
+    /\ (status = "timeout" => HasDeadline /\ now = cfg.deadline)
+    /\ (status = "hang" => ~HasDeadline)
 
 \* termination by return, raise or deadline (or, without a deadline, a wait for ever)
 Terminates == <>(status # "open")
